@@ -247,6 +247,9 @@ func main() {
 	for _, r := range rules {
 		if r.Generated {
 			for _, g := range corp {
+				if g.Corpus.Runtime == "root" && !r.GeneratedRoot && os.Getenv("VERIF_ROOT_ALL") == "" {
+					continue
+				}
 				rwg.Add(1)
 				go func(r *core.Rule, g *corpus.Generated) {
 					defer rwg.Done()
